@@ -96,20 +96,24 @@ func (t *tracker) step(in *metax.Inst, cmd metax.Cmd) bool {
 	before := in.DumpCatalogue().String()
 	liveGroups, sgDur := groupFacts(in)
 	marksBefore := markedObjects(in, strings.HasPrefix(cmd.Text, "PruneGroups 1 "))
+	var factsBefore map[string]uint64
+	if structural[cmd.Kind] {
+		factsBefore = objFacts(in)
+	}
 	res := in.Apply(cmd)
 	t.hist = append(t.hist, cmd.Text+" => "+res.String())
 	c.Count("cmd:" + cmd.Kind)
 	ln := c.Emit("cmd "+cmd.Text, res.String())
 	if res.Panic {
 		c.Count("panic:" + cmd.Kind)
-		class := ""
-		if (cmd.Kind == "CreateShardGroup" || cmd.Kind == "AlterShardKey") && strings.Contains(res.Err, "index_out_of_range") {
-			class = "panic_measurement_without_shardkey" // msti.ShardKeys[0] / [len-1] on a measurement created without a shard key
-		}
-		c.Violation(ln, class, fmt.Sprintf("%s panics: %s after %s", cmd.Kind, res.Err, strings.Join(tail(t.hist, 10), " | ")))
+		// (the ShardKeys[0] panic of a key-less measurement was repaired by 01de664: no class)
+		c.Violation(ln, "", fmt.Sprintf("%s panics: %s after %s", cmd.Kind, res.Err, strings.Join(tail(t.hist, 10), " | ")))
 		return false
 	}
 	t.pruneMarksOnlyItsTarget(in, cmd, marksBefore, ln)
+	if factsBefore != nil && res.OK {
+		t.structuralOracle(in, cmd, factsBefore, ln)
+	}
 	after := in.DumpCatalogue()
 	if !res.OK {
 		c.Count("err:" + cmd.Kind)
@@ -214,9 +218,8 @@ func (t *tracker) classify(clause string) string {
 		if t.idxPruned {
 			return "index_pruned_under_live_shard"
 		}
-		if t.ownerless {
-			return "resharding_more_shards_than_partitions"
-		}
+		// (owner-less shards after ReSharding were repaired by 20a54a7: no class, `ownerless` only
+		// feeds the description)
 	}
 	return ""
 }
@@ -428,6 +431,100 @@ func (t *tracker) pruneMarksOnlyItsTarget(in *metax.Inst, cmd metax.Cmd, before 
 	}
 }
 
+// the commands the structural oracle looks at
+var structural = map[string]bool{"UpdateShardInfoTier": true, "UpdateIndexInfoTier": true, "CreateShardGroup": true, "ExpandGroups": true,
+	"ReSharding": true, "CreateContinuousQuery": true}
+
+// objFacts: what the structural oracle remembers of the catalogue before a command — the tier of
+// every shard ("s<id>") and index ("x<id>").
+func objFacts(in *metax.Inst) map[string]uint64 {
+	out := map[string]uint64{}
+	for _, db := range in.Data().Databases {
+		for _, rp := range db.RetentionPolicies {
+			for i := range rp.ShardGroups {
+				for _, s := range rp.ShardGroups[i].Shards {
+					out[fmt.Sprint("s", s.ID)] = s.Tier
+				}
+			}
+			for i := range rp.IndexGroups {
+				for _, x := range rp.IndexGroups[i].Indexes {
+					out[fmt.Sprint("x", x.ID)] = x.Tier
+				}
+			}
+		}
+	}
+	return out
+}
+
+// structuralOracle: three facts that need no model.  (1) UpdateShardInfoTier / UpdateIndexInfoTier
+// change the tier of the object they name and of nothing else.  (2) A shard created by
+// CreateShardGroup / ExpandGroups / ReSharding uses the index of its own partition.  (3) A
+// continuous-query name exists in one database only (CreateContinuousQuery refuses a name that
+// any database has).
+func (t *tracker) structuralOracle(in *metax.Inst, cmd metax.Cmd, before map[string]uint64, ln int) {
+	report := func(class, msg string) {
+		if !t.reported[class] {
+			t.reported[class] = true
+			t.c.Violation(ln, class, msg+" after "+strings.Join(tail(t.hist, 14), " | "))
+		}
+	}
+	switch cmd.Kind {
+	case "UpdateShardInfoTier", "UpdateIndexInfoTier":
+		w := strings.Fields(cmd.Text)
+		if len(w) < 2 {
+			return
+		}
+		pre := "s"
+		if cmd.Kind == "UpdateIndexInfoTier" {
+			pre = "x"
+		}
+		for k, tier := range objFacts(in) {
+			if old, ok := before[k]; ok && old != tier && k[:1] == pre && k != pre+w[1] {
+				report("tier_changed_other_object", fmt.Sprintf("%s changed the tier of %s", cmd.Text, k))
+			}
+		}
+	case "CreateShardGroup", "ExpandGroups", "ReSharding":
+		for _, db := range in.Data().Databases {
+			for _, rp := range db.RetentionPolicies {
+				owners := map[uint64][]uint32{}
+				for i := range rp.IndexGroups {
+					for _, x := range rp.IndexGroups[i].Indexes {
+						owners[x.ID] = x.Owners
+					}
+				}
+				for i := range rp.ShardGroups {
+					for _, s := range rp.ShardGroups[i].Shards {
+						if _, old := before[fmt.Sprint("s", s.ID)]; old || len(s.Owners) == 0 {
+							continue
+						}
+						xo, ok := owners[s.IndexID]
+						if !ok {
+							continue // clause refs
+						}
+						same := false
+						for _, p := range xo {
+							same = same || p == s.Owners[0]
+						}
+						if !same {
+							report("shard_index_on_other_partition", fmt.Sprintf("%s: new shard %d of partition %d uses index %d of partitions %v", cmd.Kind, s.ID, s.Owners[0], s.IndexID, xo))
+						}
+					}
+				}
+			}
+		}
+	case "CreateContinuousQuery":
+		seen := map[string]string{}
+		for dbn, db := range in.Data().Databases {
+			for n := range db.ContinuousQueries {
+				if other, dup := seen[n]; dup {
+					report("cq_name_in_two_databases", fmt.Sprintf("continuous query %s exists in %s and %s", n, other, dbn))
+				}
+				seen[n] = dbn
+			}
+		}
+	}
+}
+
 func hasOwnerlessShard(in *metax.Inst) bool {
 	for _, db := range in.Data().Databases {
 		for _, rp := range db.RetentionPolicies {
@@ -451,6 +548,10 @@ var layoutFree = map[string]bool{"ids": true, "counters": true, "refs": true, "d
 func (t *tracker) stepOracleOnly(in *metax.Inst, cmd metax.Cmd) bool {
 	c := t.c
 	marksBefore := markedObjects(in, strings.HasPrefix(cmd.Text, "PruneGroups 1 "))
+	var factsBefore map[string]uint64
+	if structural[cmd.Kind] {
+		factsBefore = objFacts(in)
+	}
 	res := in.Apply(cmd)
 	t.hist = append(t.hist, cmd.Desc+" => "+res.String())
 	c.Count("all-cmd:" + cmd.Kind)
@@ -458,6 +559,9 @@ func (t *tracker) stepOracleOnly(in *metax.Inst, cmd metax.Cmd) bool {
 	ln := c.Emit(line, line)
 	if !res.Panic {
 		t.pruneMarksOnlyItsTarget(in, cmd, marksBefore, ln)
+		if factsBefore != nil && res.OK {
+			t.structuralOracle(in, cmd, factsBefore, ln)
+		}
 	}
 	if res.Panic {
 		c.Count("all-panic:" + cmd.Kind)
